@@ -33,6 +33,14 @@ func corrC13(outDir string, seed uint64, tier string, replay string) *report {
 		{7, "sha1", 8, alphaCrypt, []int64{5}, false, "", 0, common, 1 << 30},
 		{8, "sunmd5", 8, alphaCrypt, []int64{0}, false, "", 0, common, 255},
 		{8, "sunmd5/$md5$,nosep", 8, alphaCrypt, []int64{1}, true, "$md5$", 1, []int{0, 8, 255}, 255},
+		{8, "sunmd5/nil,rounds=2", 8, alphaCrypt, []int64{2}, false, "", 0, []int{0, 8, 255}, 255},
+		{8, "sunmd5/$md5,", 8, alphaCrypt, []int64{0}, true, "$md5,", 0, []int{0, 8}, 255},
+		{5, "sha256/rounds=1001", 16, alphaCrypt, []int64{1001}, false, "", 0, []int{0, 33}, 1 << 30},
+		{7, "sha1/rounds=6", 8, alphaCrypt, []int64{6}, false, "", 0, []int{0, 65}, 1 << 30},
+		{10, "desext/rounds=3", 4, alphaCrypt, []int64{3}, false, "", 0, []int{0, 9}, 1 << 30},
+		{2, "bcrypt/nil,cost=5", 22, alphaCrypt, []int64{5}, false, "", 0, []int{1, 73}, 1 << 30},
+		{4, "argon2/nil,t=2", 11, b64Std, []int64{8, 2, 1}, false, "", 0, []int{0, 16}, 1 << 30},
+		{4, "argon2/2d/v19", 11, b64Std, []int64{8, 1, 1}, true, "$argon2d$", 0x13, []int{0, 16}, 1 << 30},
 		{9, "des", 2, alphaCrypt, nil, false, "", 0, []int{0, 1, 7, 8}, 8},
 		{10, "desext", 4, alphaCrypt, []int64{2}, false, "", 0, common, 1 << 30},
 		{2, "bcrypt/nil", 22, alphaCrypt, []int64{4}, false, "", 0, common, 1 << 30},
@@ -43,6 +51,13 @@ func corrC13(outDir string, seed uint64, tier string, replay string) *report {
 		{4, "argon2", 11, b64Std, []int64{8, 1, 1}, false, "", 0, []int{0, 1, 16, 64, 128, 200}, 1 << 30},
 		{4, "argon2/2i/v16/p2", 14, b64Std, []int64{16, 1, 2}, true, "$argon2i$", 0x10, []int{0, 8, 65}, 1 << 30},
 	}
+	// every successful call with private copies of its arguments and its first result, for the history phase
+	type past struct {
+		name string
+		a    keyArgs
+		key  []byte
+	}
+	var hist []past
 	spares := []int{0, 1, 3, 40}
 	if tier == "thorough" {
 		spares = []int{0, 1, 2, 3, 8, 40, 200}
@@ -83,6 +98,9 @@ func corrC13(outDir string, seed uint64, tier string, replay string) *report {
 						fmt.Sprintf("password buffer changed at offsets %v (relative to the password start); salt changed: %v", changed, !bytes.Equal(saltBuf, saltBefore)), "Key writes into its arguments")
 				}
 				c1 := append([]byte(nil), k1...)
+				if spare == 0 {
+					hist = append(hist, past{v.name, keyArgs{tag: v.tag, pw: append([]byte(nil), pw...), salt: append([]byte(nil), salt...), nums: v.nums, hasOpts: v.hasOpts, prefix: v.prefix, optNum: v.optNum}, c1})
+				}
 				k2, _ := call()
 				if !bytes.Equal(k2, c1) && !(v.tag == 7 && v.nums[0] == sha1.RandomRounds) {
 					rep.fail(map[string]interface{}{"scheme": v.name, "password_len": n}, fmt.Sprintf("%x", c1), fmt.Sprintf("%x", k2), "Key is not deterministic")
@@ -124,10 +142,37 @@ func corrC13(outDir string, seed uint64, tier string, replay string) *report {
 			}
 		}
 	}
+	// history independence: the same calls again in two other orders (reverse, shuffled) — a result may depend on
+	// nothing but the call's own arguments, in particular not on which calls (other schemes, other option paths)
+	// came before it
+	for pass := 0; pass < 2; pass++ {
+		order := make([]int, len(hist))
+		for i := range order {
+			order[i] = len(hist) - 1 - i
+		}
+		if pass == 1 {
+			for i := len(order) - 1; i > 0; i-- {
+				j := r.intn(i + 1)
+				order[i], order[j] = order[j], order[i]
+			}
+		}
+		prev := "none"
+		for _, i := range order {
+			h := hist[i]
+			k, err := keyOf(h.a)
+			if err != nil || !bytes.Equal(k, h.key) {
+				rep.fail(map[string]interface{}{"scheme": h.name, "password_len": len(h.a.pw), "nums": h.a.nums, "options": h.a.hasOpts, "previous_call": prev, "pass": pass},
+					fmt.Sprintf("%x", h.key), fmt.Sprintf("%x %v", k, err), "Key depends on the calls made before it (same arguments, different result)")
+			}
+			prev = h.name
+			rep.count(fmt.Sprint("hist", pass, i), true)
+			rep.bump("history_replays")
+		}
+	}
 	must(cs.flush())
 	rep.CaseSets = []string{"C13_bcrypt"}
 	rep.Exhaustive = true
 	rep.ExhaustiveSpaces = []string{"every Key function / option variant x password lengths around 8/16/32/64/72/128/254/255/256 x spare capacities"}
-	rep.Rule = "password and salt are sub-slices (len < cap) of sentinel-filled buffers; after Key the whole buffers (incl. spare capacity) must be unchanged; the call is repeated (determinism), the first result is overwritten over its full capacity and later results must not move (no aliasing with arguments, package state or other results). For bcrypt the offsets changed in the password buffer are also compared with the Coq heap model. Non-trivial = spare capacity > 0; distinct by (variant, length, spare)."
+	rep.Rule = "password and salt are sub-slices (len < cap) of sentinel-filled buffers; after Key the whole buffers (incl. spare capacity) must be unchanged; the call is repeated (determinism), the first result is overwritten over its full capacity and later results must not move (no aliasing with arguments, package state or other results). Afterwards all calls are repeated in reverse and in shuffled order and must return their first results (independence of the call history and of package state). For bcrypt the offsets changed in the password buffer are also compared with the Coq heap model. Non-trivial = spare capacity > 0; distinct by (variant, length, spare)."
 	return rep
 }
